@@ -313,14 +313,13 @@ impl<'de> serde::Deserializer<'de> for &mut ValueDeserializer<'de> {
         V: serde::de::Visitor<'de>,
     {
         if let Some(scalar) = self.input.as_scalar() {
-            if scalar.to_integer().is_some() {
-                self.deserialize_i64(visitor)
-            } else if scalar.to_float().is_some() {
-                self.deserialize_f64(visitor)
-            } else if scalar.to_bool().is_some() {
-                self.deserialize_bool(visitor)
-            } else {
-                self.deserialize_str(visitor)
+            // Go by what the scalar is, not by what it could be converted to: the string "123"
+            // is a string.
+            match scalar.type_name() {
+                "whole number" => self.deserialize_i64(visitor),
+                "fractional number" => self.deserialize_f64(visitor),
+                "boolean" => self.deserialize_bool(visitor),
+                _ => self.deserialize_str(visitor),
             }
         } else if self.input.is_array() {
             self.deserialize_seq(visitor)
